@@ -118,6 +118,17 @@ def _run_case(args: Tuple[Dict[str, Any], str]) -> Dict[str, Any]:
                 res['why'] = out.strip().splitlines()[-1][:200] if out.strip() else pr.stderr[-200:]
             else:
                 res['status'] = 'MISSED'
+        elif case['kind'] == 'idiom':
+            # an equivalent rewrite in an idiom the rules may not know: staying silent or saying "cannot decide" (exit 2) are both
+            # acceptable, reporting a violation is a false alarm
+            if pr.returncode == 0:
+                res['status'] = 'silent'
+            elif pr.returncode == 2:
+                res['status'] = 'undecided'
+                res['why'] = out.strip().splitlines()[-1][:160] if out.strip() else ''
+            else:
+                res['status'] = 'FALSE-ALARM'
+                res['why'] = '\n'.join(l for l in out.splitlines() if 'rule=' in l or 'ANALYSIS' in l)[:400]
         else:
             if pr.returncode == 0:
                 res['status'] = 'silent'
